@@ -13,9 +13,17 @@ func (e StdEng) StackDense(t DenseTensor, axis int, others ...DenseTensor) (retV
 		return
 	}
 
+	// all the tensors to be stacked must have exactly the same shape
+	shape := t.Shape()
+	for _, ot := range others {
+		if oshape := ot.Shape(); len(oshape) != len(shape) || !oshape.Eq(shape) {
+			err = errors.Errorf(shapeMismatch, shape, oshape)
+			return
+		}
+	}
+
 	newShape := Shape(BorrowInts(opdims + 1))
 	newShape[axis] = len(others) + 1
-	shape := t.Shape()
 	var cur int
 	for i, s := range shape {
 		if i == axis {
